@@ -364,3 +364,86 @@ def kept_results(s, label, thunks, obs=None):
         s.case(nontrivial=True, calls=1, outcome=label, sample=case if len(s.samples) < 1 else None)
     distinct = len({id(r) for _, r, _ in kept if not isinstance(r, (int, bool, str, bytes, float, type(None)))})
     s.extra.setdefault("kept_results", {})[label] = {"calls": len(kept), "distinct_result_objects": distinct, "changed": changed}
+
+
+def many_distinct_inputs(s, owners, entries, always, n=70_000, keep=64, deadline_s=240.0):
+    """Capacity: a stateless codec answers the 70 001st *different* input like the first.
+
+    entries: list of (label, make_input(i), call(input) -> comparable observation).  Guided like long_history: three distinct inputs
+    are run and the class/module-level data digested before and after; only if a call leaves a trace there (a memo, a ring buffer, a
+    statistics table) -- or `always` (thorough tier) -- are n distinct inputs run in one process (one forked child per entry), after
+    which the first `keep` inputs are run again and must give what they gave the first time.  Only a different observation or an
+    exception is a violation."""
+    import time
+    from . import par
+    from .report import Acc, exc_sig
+
+    t0 = time.perf_counter()
+    before = hidden_state(*owners)
+    for lab, mk, call in entries:
+        for i in range(3):
+            try:
+                a = call(mk(i))
+                b = call(mk(i))
+                if a != b:
+                    s.violation(f"many_inputs:result_not_repeatable:{lab}", {"call": lab, "input_index": i})
+            except Exception as e:  # noqa: BLE001
+                s.violation(f"many_inputs:exception:{lab}:" + exc_sig(e), {"call": lab, "input_index": i}, repr(e))
+            s.case(nontrivial=True, calls=2, outcome="short", sample={"call": lab, "input_index": i} if len(s.samples) < 1 else None)
+    after = hidden_state(*owners)
+    changed = sorted(k for k in set(before) | set(after) if before.get(k) != after.get(k))
+    s.extra["class_or_module_data_changed_by_distinct_inputs"] = changed
+    deep = always or bool(changed)
+    s.extra["distinct_inputs_per_entry_point"] = n if deep else 3
+    if not deep:
+        return
+
+    def run(idx):
+        lab, mk, call = entries[idx]
+        acc = Acc()
+        first = {}
+        cap = None
+        for i in range(n):
+            try:
+                r = call(mk(i))
+            except Exception as e:  # noqa: BLE001
+                acc.violation(f"many_inputs:exception_after_many_distinct_inputs:{lab}:" + exc_sig(e), {"call": lab, "distinct_inputs_before": i}, repr(e))
+                break
+            if i < keep:
+                first[i] = r
+            acc.case(nontrivial=(i & 0x3FF) == 0, calls=1, outcome="distinct")
+            if (i & 0x3FF) == 0 and time.perf_counter() - t0 > deadline_s:
+                cap = i
+                break
+        for i in sorted(first):
+            try:
+                if call(mk(i)) != first[i]:
+                    acc.violation(f"many_inputs:early_input_answered_differently_after_many_others:{lab}", {"call": lab, "input_index": i, "distinct_inputs_in_between": (cap or n) - i},
+                                  "an input gets another answer after tens of thousands of other inputs went through the same entry point")
+                    break
+            except Exception as e:  # noqa: BLE001
+                acc.violation(f"many_inputs:exception_on_early_input_after_many_others:{lab}:" + exc_sig(e), {"call": lab, "input_index": i}, repr(e))
+                break
+            acc.case(nontrivial=True, calls=1, outcome="again")
+        return acc, lab, cap
+
+    for acc, lab, cap in par.pmap(run, list(range(len(entries))), len(entries)):
+        s.merge(acc)
+        if cap is not None:
+            s.extra.setdefault("many_inputs_capped_at", {})[lab] = cap
+            s.exhaustive = False
+
+
+def picklable_entry_points(s, funcs):
+    """public functions / static methods can be handed to worker processes (pickled by reference) and are the same function there"""
+    import pickle
+    from .report import exc_sig
+
+    for name, f in funcs.items():
+        try:
+            g = pickle.loads(pickle.dumps(f))
+            if getattr(g, "__qualname__", None) != getattr(f, "__qualname__", None):
+                s.violation(f"entry_point_changes_identity_when_pickled:{name}", {"entry_point": name})
+        except Exception as e:  # noqa: BLE001
+            s.violation(f"entry_point_cannot_be_handed_to_a_worker_process:{name}:" + type(e).__name__, {"entry_point": name}, repr(e))
+        s.case(nontrivial=True, calls=1, outcome="pickle")
